@@ -274,6 +274,20 @@ def second_pass_sweeps(ctx):
         ctx.count('second:inner_comment')
         one(frame % ('BEGIN IF a THEN x := 1; END%sIF; y := 2; END;' % cm), 3, 'comment inside END IF')
         one(frame % ('BEGIN WHILE a DO x := 1; END%sWHILE; y := 2; END;' % cm), 3, 'comment inside END WHILE')
+    # (e) every kind of ordinary statement INSIDE the body — also DDL (a CREATE within a CREATE), DCL, transaction statements — before and after
+    #     every block kind: what an inner statement does to the splitter's flags must not leak into the blocks that follow it
+    INNER = ['CREATE TEMPORARY TABLE tmp (a int)', 'CREATE INDEX i ON t (a)', 'CREATE TABLE u AS SELECT 1', 'CREATE OR REPLACE VIEW v AS SELECT 1', 'create table w (b int)',
+             'DROP TABLE t', 'TRUNCATE TABLE t', 'ALTER TABLE t ADD c int', 'GRANT CREATE ON x TO y', 'SHOW CREATE TABLE t', 'INSERT INTO t VALUES (1)', 'DELETE FROM t WHERE a = 1',
+             'MERGE INTO t USING u ON a = b', 'CALL q(1)', 'SET x = 1', 'DECLARE c CURSOR FOR SELECT 1', 'OPEN c', 'FETCH c INTO x', 'COMMIT', 'ROLLBACK', 'SAVEPOINT s', 'RETURN 1',
+             'EXECUTE IMMEDIATE s', 'ANALYZE t', 'EXPLAIN SELECT 1', 'WITH q AS (SELECT 1) SELECT * FROM q', 'SELECT a INTO x FROM t', 'USE db', 'REPLACE INTO t VALUES (1)']
+    BLOCKS = ['IF a THEN x := 1; END IF', 'WHILE a DO x := 1; END WHILE', 'BEGIN x := 1; END', 'IF a THEN BEGIN x := 1; END; END IF', 'x := CASE WHEN a THEN 1 ELSE 2 END',
+              'IF a THEN x := 1; ELSE IF b THEN y := 2; END IF; END IF']
+    for hdr in ('CREATE PROCEDURE p()', 'create or replace function f() returns int', 'CREATE TRIGGER g BEFORE INSERT ON t FOR EACH ROW'):
+        for st in INNER:
+            for blk in BLOCKS:
+                ctx.count('second:inner_statement')
+                one('select 1; %s BEGIN %s; %s; z := 0; END; select 2' % (hdr, st, blk), 3, 'inner statement before a block')
+                one('select 1; %s BEGIN %s; %s; z := 0; END; select 2' % (hdr, blk, st), 3, 'inner statement after a block')
     for kid, k in sorted(pending.items()):
         ctx.dist['pending-known-finding:' + kid] = k
         ctx.notes.append('%s (proposed, not registered in known_findings.json): %d witnesses' % (kid, k))
@@ -321,7 +335,8 @@ def replay_known(ctx, k):
 
 
 def for_outside_loop_header(text):
-    """KF-C17-4: a FOR keyword directly followed by a number or by UPDATE/SHARE (expression / locking-clause FOR), in a script with a CREATE"""
+    """KF-C17-4: a FOR keyword that is no loop header — directly followed by a number or by UPDATE/SHARE (expression / locking-clause FOR), or directly
+    preceded by CURSOR (cursor declaration) — in a script with a CREATE"""
     from sqlparse import lexer, tokens as T
     toks = [(tt, v) for tt, v in lexer.tokenize(text) if tt not in T.Whitespace and tt not in T.Comment]
     if not any(tt is T.Keyword.DDL and v.upper().startswith('CREATE') for tt, v in toks):
@@ -330,6 +345,8 @@ def for_outside_loop_header(text):
         if tt in T.Keyword and v.upper() == 'FOR':
             nt, nv = toks[i + 1]
             if nt in T.Number or (nt in T.Keyword and nv.upper() in ('UPDATE', 'SHARE')):
+                return True
+            if i > 0 and toks[i - 1][1].upper() == 'CURSOR':
                 return True
     return False
 
